@@ -92,6 +92,23 @@ def gen_history(rng):
     rng.shuffle(hist)
     return hist
 
+FREQ = ['correct', 'horse', 'battery', 'staple', 'blue', 'moon', 'river', 'stone', 'fire', 'wall', 'night', 'king', 'love', 'star', 'wars']
+
+def multiword_family(rng, history, k):
+    """Make 4-5 words frequent in the history and return concatenations of 2-3 of them, several sharing a tail, in a random order:
+    splitting one must not depend on which of the others was parsed before."""
+    ws = rng.sample(FREQ, 5)
+    for w in ws:
+        history += [w + rng.choice(['', '1', '!'])] * rng.choice([5, 6, 8])
+    out = []
+    for _ in range(k):
+        n = rng.choice([2, 3, 3, 4])
+        parts = [rng.choice(ws) for _ in range(n - 2)] + [ws[1], ws[2]] if rng.random() < 0.6 else [rng.choice(ws) for _ in range(n)]
+        s = ''.join(parts)
+        if len(s) <= 20:
+            out.append(trainlists.cap(rng, s) + rng.choice(['', '', '1', '!']))
+    return out
+
 def glued_candidates(rng, history, k):
     """Strings made of adjacent alpha runs of history passwords glued together (+ a frequent word): what a mis-tallying detector would split."""
     out = []
@@ -238,7 +255,8 @@ def run(run, rng):
     while done < n:
         lenchg = (done // BATCH) % 12 == 11            # every 12th batch is the U+0130 class
         hist = gen_history(rng)
-        strings = [gen_string(rng, lenchg=lenchg) for _ in range(BATCH - 40)] + glued_candidates(rng, hist, 40)
+        strings = [gen_string(rng, lenchg=lenchg) for _ in range(BATCH - 70)] + multiword_family(rng, hist, 30) + glued_candidates(rng, hist, 40)
+        rng.shuffle(strings)
         if not lenchg:
             strings = [''.join(c if len(c.lower()) == 1 else 'I' for c in x) for x in strings]
         case = {'history': hist, 'strings': strings}
